@@ -16,7 +16,9 @@ META = dict(
                 'takes precedence over the per-object flag; slice assignment / slice deletion (C02 extension of the model) on a list treated as sealed or with '
                 'non-writable accessors return the unchanged state and WritePermission (C08_slice_write_refused). Tie: correspondence of the model with the implementation on generated histories with sealed / '
                 'accessor-protected nodes and nested scopes; every callable attribute of pg.List / pg.Dict / pg.Object instances and of the list/dict bases '
-                'is classified read-only or mapped to a model operation (exhaustive, run every time); direct oracle on every step.'),
+                'is classified read-only or mapped to a model operation (exhaustive, run every time; pg.functor objects included); protection is re-checked on every '
+                'copy route (clone shallow/deep, copy.copy/deepcopy, children of copied containers, from_json(to_json)) of sealed / accessor-protected values and '
+                'through every public view that hands out a part of the value (discovered with dir(): e.g. sym_init_args), every mutator; direct oracle on every step.'),
     level_note=('Trusted: Coq kernel; extraction cross-checked against vm_compute; driver/generator; the classification table of read-only attributes in c08.py '
                 '(each entry is additionally executed on a sealed instance and must leave it unchanged). Slice assignment / deletion are modelled by the C02 extension (tied by the C02 correspondence; here classified and executed in the surface sweep). Not modelled: '
                 'value specs, sym_setparent/sym_setpath/sym_setorigin/use_value_spec plumbing (excluded by name with reason).'),
@@ -164,6 +166,8 @@ def run(ctx):
 def replay(ctx, rp):
   if rp.get('case', {}).get('kind') == 'surface':
     return not surface_probe_one(rp['case'])
+  if rp.get('case', {}).get('kind') == 'protection':
+    return not run_protection_case(rp['case'])
   return D.replay_property(ctx, rp, Oracle)
 
 # ----------------------------------------------------------------------------------------------------
@@ -182,13 +186,15 @@ MAPPED = {
     'Object': {'__setattr__': 'OSet', 'rebind': 'Rebind', 'sym_rebind': 'Rebind', 'clone': 'Clone', 'sym_clone': 'Clone', '__copy__': 'Clone', '__deepcopy__': 'Clone',
                'seal': 'Seal', 'sym_seal': 'Seal (non-recursive setter of the flag)', 'set_accessor_writable': 'SetAW'},
 }
+# a pg.functor object is a pg.Object whose arguments can also be un-bound by attribute deletion (not in the model: executed in the sweeps only)
+MAPPED['Functor'] = dict(MAPPED['Object'], __delattr__='argument reset (del f.x): executed in the sweeps only')
 EXCLUDED = {
     'sym_setparent': 'tree plumbing called by the containers themselves (TopologyAware interface); not a content mutator',
     'sym_setpath': 'tree plumbing called by the containers themselves (TopologyAware interface); not a content mutator',
     'sym_setorigin': 'origin tracking metadata only',
     'use_value_spec': 'schema binding (C03)',
     'custom_apply': 'pg.typing.CustomTyping interface used by value specs (C03)',
-    '__init__': 'constructor', '__new__': 'constructor', '__init_subclass__': 'class machinery', '__subclasshook__': 'class machinery',
+    '__init__': 'constructor', '__new__': 'constructor', '__orig_init__': 'constructor (the undecorated __init__ kept by the functor class wrapper)', '__init_subclass__': 'class machinery', '__subclasshook__': 'class machinery',
     '__setstate__': 'pickle protocol: re-runs the constructor on a blank instance', '__reduce__': 'pickle protocol', '__reduce_ex__': 'pickle protocol',
     '__getstate__': 'pickle protocol', '__class_getitem__': 'typing', '__delattr__@Object': 'object.__delattr__: symbolic fields are not instance attributes',
     'save': 'writes a file (C05)', 'load': 'class method (C05)', 'from_json': 'class method (C05)', 'partial': 'class method constructor',
@@ -202,12 +208,13 @@ def _instances():
       'List': lambda: P.List([1, P.Dict(a=1), [2, 3], 'x']),
       'Dict': lambda: P.Dict(a=1, b=P.Dict(c=2), l=[1, 2]),
       'Object': lambda: B(x=1, y=P.Dict(a=1), z=[1]),
+      'Functor': lambda: _functor()(x=5, y=P.Dict(a=1)),
   }
 
 def _args_for(name, kind):
   """Candidate argument tuples to call a read-only attribute with."""
   P = D.pg()
-  first = {'List': 0, 'Dict': 'a', 'Object': 'x'}[kind]
+  first = {'List': 0, 'Dict': 'a', 'Object': 'x', 'Functor': 'x'}[kind]
   return [(), (first,), (first, None), (P.KeyPath(first),), ('%s' % first,), (lambda k, v, p: P.TraverseAction.ENTER,), (1,), ([1],), ({'a': 1},), (None, None)]
 
 import contextlib as _cl, os as _os, sys as _sys
@@ -284,6 +291,7 @@ MUTATOR_CALLS = {
     'Dict': {'__setitem__': [('a', 5), ('new', 1)], '__setattr__': [('a', 5)], '__delitem__': [('a',)], '__delattr__': [('a',)], 'pop': [('a',)], 'popitem': [()],
              'clear': [()], 'setdefault': [('new', 1)], 'update': [({'a': 7},)], '__ior__': [({'a': 7},)], 'rebind': [({'a': 9},)], 'sym_rebind': [({'a': 9},)]},
     'Object': {'__setattr__': [('x', 5)], 'rebind': [({'x': 9},)], 'sym_rebind': [({'x': 9},)]},
+    'Functor': {'__setattr__': [('x', 7)], '__delattr__': [('x',)], 'rebind': [({'x': 9},)], 'sym_rebind': [({'x': 9},)]},
 }
 def _mutator_hits(only=None):
   """Every mapped mutator, called directly (dunder names included) on an instance sealed by flag / by scope, must raise
@@ -315,6 +323,252 @@ def _mutator_hits(only=None):
                          dict(kind='surface', cls=kind, name=name)))
   return hits, n
 
+# ----------------------------------------------------------------------------------------------------
+# Protection of COPIES and through VIEWS (every run).  The claim is stated on what a value reports about itself: a
+# value that reports is_sealed (resp. accessor_writable == False) -- however it came about: sealed directly, as part of
+# a sealed container, or as ANY copy of such a value -- must refuse every mutator (resp. every accessor write) reached
+# (a) on the value itself, (b) on every symbolic object that any public attribute / zero-argument accessor of the value
+# hands out and that belongs to the value (its parent chain reaches the value: children, the attribute container of a
+# pg.Object behind `sym_init_args`, ...).  "Mutator" is decided by a twin: the same call on an unprotected twin value
+# changes the twin.  Nothing here names a particular accessor: views are discovered with dir().
+_FUNCTOR = []
+def _functor():
+  if not _FUNCTOR:
+    P = D.pg()
+    @P.functor()
+    def c08_add(x=1, y=2):
+      return (x, y)
+    _FUNCTOR.append(c08_add)
+  return _FUNCTOR[0]
+
+def _prot_values():
+  P = D.pg()
+  A, B, C = D.classes()
+  F = _functor()
+  return {
+      'List': lambda: P.List([1, P.Dict(a=1), [2, 3], 'x']),
+      'Dict': lambda: P.Dict(a=1, b=P.Dict(c=2), l=[1, 2]),
+      'ObjA': lambda: A(x=1, y=P.Dict(a=1)),
+      'ObjB': lambda: B(x=1, y=P.Dict(a=1), z=[1]),
+      'Functor': lambda: F(x=5, y=P.Dict(a=1)),
+      'Dict-of-objects': lambda: P.Dict(o=A(x=1, y=[1]), f=F(x=5, y=6), l=[B(x=2)]),
+      'List-of-objects': lambda: P.List([A(x=1, y=[1]), F(x=5, y=6)]),
+      'Object-of-objects': lambda: B(x=A(x=1), y=F(x=5, y=6), z=[A(x=3)]),
+  }
+
+def _copy_routes():
+  import copy as _copy
+  P = D.pg()
+  return {
+      'original': lambda v: v,
+      'clone()': lambda v: v.clone(),
+      'clone(deep=True)': lambda v: v.clone(deep=True),
+      'copy.copy': _copy.copy,
+      'copy.deepcopy': _copy.deepcopy,
+      'child of a cloned Dict': lambda v: P.Dict(h=v).clone()['h'],
+      'child of a deep-cloned List': lambda v: P.List([0, v]).clone(deep=True)[1],
+      'from_json(to_json())': lambda v: P.from_json(v.to_json()),
+  }
+
+def _protect(v, how):
+  if how == 'sealed': v.seal()
+  elif how == 'no-accessor-write': v.set_accessor_writable(False)
+  return v
+
+_SKIP_CALL = ('sym_set', 'sym_rebind', 'sym_seal', 'sym_clone', 'sym_jsonify', 'sym_hash', 'sym_eq', 'sym_ne', 'sym_lt', 'sym_gt', 'sym_contains', 'sym_descendants')
+def _step(n, step):
+  """One step of an access path: ('attr', name) | ('call', name, index)."""
+  P = D.pg()
+  a = getattr(n, step[1])
+  if step[0] == 'attr':
+    return a
+  r = a()
+  if isinstance(r, P.Symbolic):
+    got = [r]
+  elif isinstance(r, dict):
+    got = list(r.values())
+  elif isinstance(r, (list, tuple)) or hasattr(r, '__next__'):
+    got = list(r)
+  else:
+    got = []
+  got = [g[1] if isinstance(g, tuple) and len(g) == 2 else g for g in got]
+  return got[step[2]] if step[2] is not None else got
+
+def _resolve(x, path):
+  n = x
+  for st in path:
+    n = _step(n, st)
+  return n
+
+def _symbolic_parts(x):
+  """(label, access path, object) for x itself, everything stored below it and every symbolic object that a public attribute or a zero-argument
+  public accessor hands out and that belongs to x (its parent chain reaches x)."""
+  P = D.pg()
+  out, seen = [], set()
+  def belongs(y):
+    n, k = y, 0
+    while n is not None and k < 64:
+      if n is x: return True
+      n = n.sym_parent; k += 1
+    return False
+  def add(label, path, y):
+    if isinstance(y, P.Symbolic) and id(y) not in seen and belongs(y):
+      seen.add(id(y)); out.append((label, path, y))
+  add('self', (), x)
+  i = 0
+  while i < len(out):
+    label, path, n = out[i]; i += 1
+    for name in sorted(dir(n)):
+      if name.startswith('_'):
+        continue
+      try:
+        with D.watchdog(5):
+          a = getattr(n, name)
+      except BaseException:     # pylint: disable=broad-except
+        continue
+      if not callable(a):
+        add('%s.%s' % (label, name), path + (('attr', name),), a)
+      elif name.startswith(('sym_', 'keys', 'values', 'items')) and not name.startswith(_SKIP_CALL):
+        try:
+          with D.watchdog(5):
+            got = _step(n, ('call', name, None))
+        except BaseException:   # pylint: disable=broad-except
+          continue
+        for j, y in enumerate(got):
+          add('%s.%s()[%d]' % (label, name, j), path + (('call', name, j),), y)
+  return out
+
+def _mutator_table(y):
+  """Calls to try on a symbolic object, by its type; every mapped mutator of the surface tables plus attribute deletion on objects."""
+  P = D.pg()
+  if isinstance(y, P.List):
+    return MUTATOR_CALLS['List']
+  if isinstance(y, P.Dict):
+    keys = list(y.sym_keys())
+    k = keys[0] if keys else 'a'
+    t = {'__setitem__': [(k, 55), ('new', 1)], '__setattr__': [(k, 55)], '__delitem__': [(k,)], '__delattr__': [(k,)], 'pop': [(k,)], 'popitem': [()], 'clear': [()],
+         'setdefault': [('new', 1)], 'update': [({k: 77},)], '__ior__': [({k: 77},)], 'rebind': [({k: 99},)], 'sym_rebind': [({k: 99},)]}
+    return t
+  return {'__setattr__': [('x', 55)], '__delattr__': [('x',)], 'rebind': [({'x': 99},)], 'sym_rebind': [({'x': 99},)]}
+ACCESSOR_WRITES = ('__setitem__', '__setattr__', '__delitem__', '__delattr__')
+
+def _protection_cases():
+  for vname in _prot_values():
+    for how in ('sealed', 'no-accessor-write'):
+      for route in _copy_routes():
+        yield dict(kind='protection', value=vname, how=how, route=route)
+
+def _unprotect(t):
+  t.seal(False)
+  D.walk(t, lambda n, p, k: n.set_accessor_writable(True))
+  return t
+
+_PATHS = {}
+def run_protection_case(case, counters=None):
+  """Returns hits [(sig, what)] for one (value, protection, copy route)."""
+  P = D.pg()
+  make = _prot_values()[case['value']]
+  route = _copy_routes()[case['route']]
+  how = case['how']
+  hits = []
+  with quiet():
+    try:
+      c0 = route(_protect(make(), how))
+    except BaseException as e:        # pylint: disable=broad-except
+      return [('C08/copy-raises/%s/%s' % (case['route'], how), 'copying a %s %s by %s raises %s' % (how, case['value'], case['route'], type(e).__name__))]
+    key = (case['value'], case['route'])
+    if key not in _PATHS:
+      _PATHS[key] = [(l, p) for l, p, _ in _symbolic_parts(c0)]
+    for label, path in _PATHS[key]:
+      try:
+        y0 = _resolve(c0, path)
+      except BaseException:           # pylint: disable=broad-except
+        continue
+      chain = _owners(y0, c0)
+      owner_sealed = any(n.is_sealed for n in chain)
+      owner_noacc = any(not n.accessor_writable for n in chain)
+      if not (owner_sealed or owner_noacc):
+        continue
+      for name, arglists in _mutator_table(y0).items():
+        if not (owner_sealed or name in ACCESSOR_WRITES):
+          continue
+        for args in arglists:
+          # the twin: same shape, same route, not protected -- does this call change it?
+          try:
+            t = _unprotect(route(make())); ty = _resolve(t, path)
+            c = route(_protect(make(), how)); y = _resolve(c, path)
+          except BaseException:       # pylint: disable=broad-except
+            continue
+          if not hasattr(ty, name) or not hasattr(y, name):
+            continue
+          timpl = D.Impl(); timpl.roots.append(t)
+          ts0 = timpl.snapshot()
+          try:
+            with D.watchdog(5):
+              getattr(ty, name)(*args)
+          except BaseException:       # pylint: disable=broad-except
+            pass
+          effective = timpl.snapshot() != ts0
+          impl = D.Impl(); impl.roots.append(c)
+          s0 = impl.snapshot()
+          err = None
+          try:
+            with D.watchdog(5):
+              getattr(y, name)(*args)
+          except BaseException as e:  # pylint: disable=broad-except
+            err = e
+          if counters is not None:
+            counters['calls'] += 1; counters['effective'] += effective
+          changed = impl.snapshot() != s0
+          if changed or (effective and not isinstance(err, P.WritePermissionError)):
+            via = 'the value itself' if label == 'self' else 'the part / view `%s`' % label[5:]
+            tname = 'List' if isinstance(y, P.List) else 'Dict' if isinstance(y, P.Dict) else 'Functor' if isinstance(y, P.Functor) else 'Object'
+            where = 'self' if label == 'self' else label.split('.')[-1].split('(')[0]
+            hits.append(('C08/%s-bypassed/%s@%s/%s' % ('sealed' if owner_sealed else 'accessor-protection', tname, where, 'copy' if case['route'] != 'original' else 'original'),
+                         '%s %s obtained by %s: %s.%s%r through %s: %s, value %s' % (
+                             how, case['value'], case['route'], tname, name, args, via, type(err).__name__ if err else 'no error', 'changed' if changed else 'unchanged')))
+  return hits
+
+def _owners(y, top):
+  """y and the nodes above it up to top (the nodes whose protection covers y: seal is deep; accessor flag is per node: only y and the object a view belongs to)."""
+  out, n, k = [], y, 0
+  while n is not None and k < 64:
+    out.append(n)
+    if n is top: break
+    n = n.sym_parent; k += 1
+  # accessor protection is not inherited by children: keep y and, for an internal view (not stored as an item of its parent), the parent it is a view of
+  if len(out) >= 2:
+    par = out[1]
+    stored = any(v is y for _, v in D.sym_children(par))
+    acc = [y] if stored else [y, par]
+  else:
+    acc = [y]
+  class _N:       # sealed: any node on the chain; accessor: acc only
+    pass
+  res = []
+  for n in out:
+    m = _N(); m.is_sealed = n.is_sealed; m.accessor_writable = n.accessor_writable if any(n is a for a in acc) else True
+    res.append(m)
+  return res
+
+def protection_sweep(ctx):
+  import time
+  t0 = time.time()
+  counters = dict(calls=0, effective=0)
+  n = 0
+  for case in _protection_cases():
+    n += 1
+    ctx.evaluations += 1
+    for sig, what in run_protection_case(case, counters):
+      ctx.hit(sig, what, case)
+  ctx.extra['protection_sweep'] = dict(cases=n, mutator_calls=counters['calls'], effective_on_unprotected_twin=counters['effective'],
+                                       values=sorted(_prot_values()), routes=sorted(_copy_routes()),
+                                       what='every value shape (List, Dict, Object, functor, containers of them) x sealed / accessor-protected x every copy route; on the result, every '
+                                            'mutator of the surface tables on the value itself, on everything below it and on every symbolic object a public attribute / accessor hands '
+                                            'out that belongs to it (views discovered with dir(): e.g. sym_init_args); a call that changes an unprotected twin must raise '
+                                            'WritePermissionError and leave the protected value unchanged')
+  ctx.log('protection sweep (copies and views): %d cases, %d mutator calls (%d effective on the unprotected twin) in %.1fs' % (n, counters['calls'], counters['effective'], time.time() - t0))
+
 def surface_sweep(ctx):
   hits, listed = _surface_hits()
   for sig, what, case in hits:
@@ -329,3 +583,4 @@ def surface_sweep(ctx):
   for sig, what, case in mh:
     ctx.hit(sig, what, case)
   ctx.extra['surface_sweep']['mutator_calls_on_sealed'] = n
+  protection_sweep(ctx)
